@@ -30,8 +30,8 @@ def _with_prebuild(rng, build):
 def specs_for(ctx):
     rng = random.Random(ctx.seed)
     specs = []
-    bases = ctx.pick(["hexflower", "squares33", "brick33", "lens5"], ["hexflower", "squares33", "brick33", "lens5", "hex33", "irregular"])
-    stride = ctx.pick({"hexflower": 1, "squares33": 4, "brick33": 4, "lens5": 1}, {"hexflower": 1, "squares33": 1, "brick33": 1, "lens5": 1, "hex33": 1, "irregular": 64})
+    bases = ctx.pick(["hexflower", "squares33", "brick33", "lens5", "fan5"], ["hexflower", "squares33", "brick33", "lens5", "fan5", "hex33", "irregular"])
+    stride = ctx.pick({"hexflower": 1, "squares33": 4, "brick33": 4, "lens5": 1, "fan5": 6}, {"hexflower": 1, "squares33": 1, "brick33": 1, "lens5": 1, "fan5": 1, "hex33": 1, "irregular": 64})
     cfg = ctx.pick("MC_Interfaces_k13.cfg", "MC_Interfaces_k0137.cfg")
     ninst = 0
     for b in bases:
@@ -47,7 +47,7 @@ def specs_for(ctx):
                           "sim": {"theta": theta, "scale": 10 ** (rng.uniform(-8, -5) if rng.random() < 0.15 else rng.uniform(-2, 2)), "offset_sizes": rng.choice([0, 0, 2, 30, 1500, 3500]),
                                   "extent": 10.0, "reflect": rng.random() < 0.2},
                           "build": _with_prebuild(rng, {"limit": "inf", "fit": rng.choice(["dlite", "taubinSVD"]),
-                                                         "ignore_four": b == "squares33" and rng.random() < 0.5}),
+                                                         "ignore_four": b in ("squares33", "fan5") and rng.random() < 0.5}),
                           "ids": {"offset": rng.choice([0, 3, 50]), "stride": rng.choice([1, 2]), "vperm": rng.random() < 0.5},
                           "nosolve": True})
     for i in range(ctx.pick(80, 800)):
